@@ -574,6 +574,23 @@ func (g *Gen) boolExpr1(d int) *Node {
 		}
 		return Op(name, x.Clone(), x.Clone(), g.Leaf(TBool))
 	}
+	// a range check written as two comparisons of one operand under and/or
+	// (what a "between"-style rewrite would key on), bounds often variables
+	if r.P(0.03) && d >= 2 {
+		v := g.Expr(TInt, 1)
+		lo, hi := g.Expr(TInt, 1), g.Expr(TInt, 1)
+		ops1 := [][2]string{{">=", "<="}, {"ge", "le"}, {">", "<"}, {"<=", ">="}, {">=", "<"}}[r.Intn(5)]
+		a, b := Op(ops1[0], v.Clone(), lo), Op(ops1[1], v.Clone(), hi)
+		if r.P(0.2) {
+			a, b = b, a
+		}
+		g.left -= 8
+		name := PickS(r, []string{"and", "and", "&", "&&", "or"})
+		if r.P(0.3) {
+			return Op(name, a, b, g.Leaf(TBool))
+		}
+		return Op(name, a, b)
+	}
 	// weights: and, or, if, not, xor, cmp, eq, ne, between, in, overlap, custom, fail
 	ws := []float64{2 * w, 2 * w, w, 1, 0.5, 2, 2, 1, 0.7, 1, 0.7, 0, 0}
 	if len(g.ob[TBool]) > 0 {
